@@ -47,40 +47,106 @@ def check_namespace_key(repo: Repo, res: Result, rule: str = "C23-NS") -> None:
     is a memo, and a key that loses a component makes the output depend on render history."""
     ck_fn = repo.own_method(MIXIN, "cache_key")
     # --- C23-NS --------------------------------------------------------------
+    from ..guards import canon as _canonK
+    from ..guards import conditions as _condsK
+
     node = ck_fn.node
     res.ob(ck_fn.qual, 3)
-    rets = [st for st in walk_no_nested(node) if isinstance(st, ast.Return)]
-    ns_rets = []
-    for r in rets:
-        v = r.value
-        if is_name(v, "name"):
-            continue
-        if isinstance(v, ast.JoinedStr):
-            fv = [x.value for x in v.values if isinstance(x, ast.FormattedValue)]
-            has_name = any(is_name(x, "name") for x in fv)
-            ns_src = [
-                x
-                for x in fv
-                if isinstance(x, ast.Subscript) and is_self_attr(x.slice, "namespace_key")
-            ]
-            if has_name and len(ns_src) == 1 and len(fv) == 2:
-                ns_rets.append((r, text(ns_src[0].value)))
-                continue
-        res.add(rule, ck_fn.qual, f"return:{text(v)}", f"cache_key returns `{text(v)}`: neither the bare name nor a string of namespace value and name", ck_fn.file, r.lineno)
-    srcs = [s for _, s in ns_rets]
-    if srcs[:2] != ["args", "context.globals"]:
-        res.add(rule, ck_fn.qual, "priority", f"cache_key must try the keyword argument before context globals; found sources {srcs}", ck_fn.file, ck_fn.line)
-    # no-namespace early return
-    first = [s for s in node.body if not (isinstance(s, ast.Expr) and isinstance(s.value, ast.Constant))][0]
-    if not (
-        isinstance(first, ast.If)
-        and isinstance(first.test, ast.UnaryOp)
-        and is_self_attr(first.test.operand, "namespace_key")
-        and isinstance(first.body[0], ast.Return)
-        and is_name(first.body[0].value, "name")
-    ):
-        res.add(rule, ck_fn.qual, "no-namespace", "cache_key must return the bare name when no namespace_key is configured", ck_fn.file, ck_fn.line)
+    ps = [p_ for p_ in ck_fn.params() if p_ != "self"]
+    if len(ps) < 3:
+        raise AnchorMissing("CachingLoaderMixin.cache_key no longer takes (name, context, args)")
+    p_name, p_ctx, p_args = ps[:3]
+    mixin = repo.cls(MIXIN)
 
+    def builder_source(e, name_expr: str):
+        """S when e is f"{S[self.namespace_key]}/{<name>}" (namespace value as found, then the name)"""
+        if isinstance(e, ast.JoinedStr):
+            fv = [x.value for x in e.values if isinstance(x, ast.FormattedValue)]
+            ns_src = [x for x in fv if isinstance(x, ast.Subscript) and is_self_attr(x.slice, "namespace_key")]
+            if len(fv) == 2 and len(ns_src) == 1 and any(text(x) == name_expr for x in fv):
+                return text(ns_src[0].value)
+        return None
+
+    def helper_params(mname: str):
+        """(name parameter, scope parameter) of a private method whose every return is the key built
+        from its scope parameter and its name parameter, or None (= no namespace there)"""
+        h = mixin.methods.get(mname)
+        if h is None or not mname.startswith("_"):
+            return None
+        hp = [p_ for p_ in h.params() if p_ != "self"]
+        if len(hp) != 2:
+            return None
+        rets_h = [r.value for r in ast.walk(h.node) if isinstance(r, ast.Return)]
+        built = 0
+        for r in rets_h:
+            if r is None or (isinstance(r, ast.Constant) and r.value is None):
+                continue
+            for a_, b_ in ((hp[0], hp[1]), (hp[1], hp[0])):
+                if builder_source(r, a_) == b_:
+                    built += 1
+                    order = (a_, b_)
+                    break
+            else:
+                return None
+        return order if built else None
+
+    # namespace sources in the order they are tried (source order of the builder expressions and
+    # helper calls in the function)
+    tried: list[tuple[int, str]] = []
+    helper_vars: set[str] = set()
+    for n in ast.walk(node):
+        src = builder_source(n, p_name)
+        if src is not None:
+            tried.append((n.lineno, src))
+        if isinstance(n, ast.Call) and is_self_attr(n.func) and len(n.args) == 2 and not n.keywords:
+            hp = helper_params(n.func.attr)
+            if hp is not None:
+                h = mixin.methods[n.func.attr]
+                hps = [p_ for p_ in h.params() if p_ != "self"]
+                bound = dict(zip(hps, n.args))
+                if text(bound[hp[0]]) == p_name:
+                    tried.append((n.lineno, text(bound[hp[1]])))
+    for st in ast.walk(node):
+        if isinstance(st, ast.Assign) and len(st.targets) == 1 and isinstance(st.targets[0], ast.Name) and isinstance(st.value, ast.Call) and is_self_attr(st.value.func) and helper_params(st.value.func.attr) is not None:
+            helper_vars.add(st.targets[0].id)
+    srcs = [s_ for _ln, s_ in sorted(tried)]
+
+    def ret_ok(v) -> bool:
+        if is_name(v, p_name) or builder_source(v, p_name) is not None:
+            return True
+        if isinstance(v, ast.Name) and v.id in helper_vars:
+            return True
+        if isinstance(v, ast.Call) and is_self_attr(v.func) and helper_params(v.func.attr) is not None:
+            return True
+        if isinstance(v, ast.IfExp):
+            return ret_ok(v.body) and ret_ok(v.orelse)
+        if isinstance(v, ast.BoolOp) and isinstance(v.op, ast.Or):
+            return all(ret_ok(x) for x in v.values)
+        return False
+
+    rets = [st for st in walk_no_nested(node) if isinstance(st, ast.Return)]
+    for r in rets:
+        if not ret_ok(r.value):
+            res.add(rule, ck_fn.qual, f"return:{text(r.value)}", f"cache_key returns `{text(r.value)}`: neither the bare name nor a string of namespace value and name", ck_fn.file, r.lineno)
+    if srcs[:2] != [p_args, f"{p_ctx}.globals"]:
+        res.add(rule, ck_fn.qual, "priority", f"cache_key must try the keyword argument before context globals; found sources {srcs}", ck_fn.file, ck_fn.line)
+    # without a configured namespace_key the key is the bare name, and nothing else is tried then
+    no_ns = _canonK(ast.parse("not self.namespace_key", mode="eval").body)
+    has_ns = _canonK(ast.parse("self.namespace_key", mode="eval").body)
+    bare_ok = False
+    others_ok = True
+    for st, cs in _condsK(node):
+        if not isinstance(st, ast.Return):
+            continue
+        cc = {_canonK(c) for c in cs}
+        if no_ns in cc:
+            bare_ok = bare_ok or is_name(st.value, p_name)
+            if not is_name(st.value, p_name):
+                others_ok = False
+        elif has_ns not in cc:
+            others_ok = False
+    if not (bare_ok and others_ok):
+        res.add(rule, ck_fn.qual, "no-namespace", "cache_key must return the bare name when no namespace_key is configured", ck_fn.file, ck_fn.line)
 
 
 def run(repo: Repo) -> Result:
@@ -202,16 +268,61 @@ def run(repo: Repo) -> Result:
         fn = nfunc(repo, repo.own_method(MIXIN, cm), aliases=False)
         node = fn.node
         res.ob(fn.qual, 5)
+        # -- read through facts, not layout ---------------------------------------------------
+        from ..flow import MustFlow as _MF23
+        from ..guards import canon as _canon23
+        from ..guards import conditions as _conds23
+
+        mixin_cls = repo.cls(MIXIN)
+
+        def read_helper(name: str):
+            """a private method whose every return is self.cache[<its parameter>] /
+            self.cache.get(<its parameter>...) or None: a cache read under that parameter"""
+            h = mixin_cls.methods.get(name)
+            if h is None or not name.startswith("_"):
+                return None
+            ps = [p_ for p_ in h.params() if p_ != "self"]
+            rets = [r.value for r in ast.walk(h.node) if isinstance(r, ast.Return)]
+            if len(ps) != 1 or not rets:
+                return None
+            for r in rets:
+                if r is None or (isinstance(r, ast.Constant) and r.value is None):
+                    continue
+                if isinstance(r, ast.Subscript) and is_self_attr(r.value, "cache") and is_name(r.slice, ps[0]):
+                    continue
+                if isinstance(r, ast.Call) and callee_name(r) == "get" and is_self_attr(call_recv(r), "cache") and r.args and is_name(r.args[0], ps[0]):
+                    continue
+                return None
+            if any(isinstance(t_, ast.Subscript) and isinstance(t_.ctx, ast.Store) for t_ in ast.walk(h.node)):
+                return None
+            return ps[0]
+
+        def cache_read_key(v):
+            """the key expression when v reads the cache, else None"""
+            v = unwrap_await(v)
+            if isinstance(v, ast.Subscript) and is_self_attr(v.value, "cache"):
+                return v.slice
+            if isinstance(v, ast.Call) and callee_name(v) == "get" and is_self_attr(call_recv(v), "cache") and v.args:
+                return v.args[0]
+            if isinstance(v, ast.Call) and is_self_attr(v.func) and read_helper(v.func.attr) is not None and len(v.args) == 1:
+                return v.args[0]
+            return None
+
         loaded_vars, read_vars = set(), set()
         for st in walk_no_nested(node):
-            if isinstance(st, ast.Assign) and len(st.targets) == 1 and isinstance(st.targets[0], ast.Name):
+            if isinstance(st, (ast.Assign, ast.AnnAssign)):
+                tg = st.targets[0] if isinstance(st, ast.Assign) and len(st.targets) == 1 else st.target if isinstance(st, ast.AnnAssign) else None
+                if not isinstance(tg, ast.Name) or st.value is None:
+                    continue
                 v = unwrap_await(st.value)
                 if isinstance(v, ast.Call) and is_name(v.func, "load_func") and not v.args and not v.keywords:
-                    loaded_vars.add(st.targets[0].id)
-                elif isinstance(v, ast.Subscript) and is_self_attr(v.value, "cache"):
-                    read_vars.add(st.targets[0].id)
-                    if not is_name(v.slice, "cache_key"):
-                        res.add("C23-STORE", fn.qual, "read-key", f"{fn.qual}: cache read under `{text(v.slice)}`, not the cache_key parameter", fn.file, st.lineno)
+                    loaded_vars.add(tg.id)
+                else:
+                    k = cache_read_key(v)
+                    if k is not None:
+                        read_vars.add(tg.id)
+                        if not is_name(k, "cache_key"):
+                            res.add("C23-STORE", fn.qual, "read-key", f"{fn.qual}: cache read under `{text(k)}`, not the cache_key parameter", fn.file, st.lineno)
         n_store = 0
         for st in walk_no_nested(node):
             if isinstance(st, ast.Assign):
@@ -222,77 +333,91 @@ def run(repo: Repo) -> Result:
                             res.add("C23-STORE", fn.qual, "store-key", f"{fn.qual}: cache write under `{text(t.slice)}`, not the cache_key parameter", fn.file, st.lineno)
                         if not (isinstance(st.value, ast.Name) and st.value.id in loaded_vars):
                             res.add("C23-STORE", fn.qual, "store-value", f"{fn.qual}: stores `{text(st.value)}`, not the result of load_func()", fn.file, st.lineno)
-            # any other use of self.cache (method calls etc.)
-        if n_store < 2:
-            res.add("C23-STORE", fn.qual, "store-missing", f"{fn.qual}: expected the loaded template to be stored on a miss and on a reload ({n_store} stores found)", fn.file, fn.line)
-        for st in walk_no_nested(node):
-            if isinstance(st, ast.Return):
-                v = st.value
-                if not (isinstance(v, ast.Name) and v.id in (loaded_vars | read_vars)):
-                    res.add("C23-STORE", fn.qual, "return", f"{fn.qual}: returns `{text(v) if v else None}` — neither the freshly loaded nor the cached template", fn.file, st.lineno)
-        # each load_func() result must be stored before it is returned: check statement order in each block
-        for blk in ast.walk(node):
-            body = getattr(blk, "body", None)
-            if not isinstance(body, list):
-                continue
-            for seq in (body, getattr(blk, "orelse", []) or []):
-                for i, st in enumerate(seq):
-                    if isinstance(st, ast.Return) and isinstance(st.value, ast.Name) and st.value.id in loaded_vars:
-                        stored = any(
-                            isinstance(p, ast.Assign)
-                            and any(isinstance(t, ast.Subscript) and is_self_attr(t.value, "cache") for t in p.targets)
-                            and is_name(p.value, st.value.id)
-                            for p in seq[:i]
-                        )
-                        if not stored:
-                            res.add("C23-STORE", fn.qual, "return-unstored", f"{fn.qual}: returns a freshly loaded template without storing it", fn.file, st.lineno)
-        # auto_reload gate
-        up_name = "is_up_to_date" if cm == "_check_cache" else "is_up_to_date_async"
-        gate_ok = False
-        for st in walk_no_nested(node):
-            if isinstance(st, ast.If):
-                t = st.test
-                if isinstance(t, ast.BoolOp) and isinstance(t.op, ast.And) and len(t.values) == 2:
-                    left, right = t.values
-                    r = right.operand if isinstance(right, ast.UnaryOp) and isinstance(right.op, ast.Not) else None
-                    r = unwrap_await(r) if r is not None else None
-                    if (
-                        is_self_attr(left, "auto_reload")
-                        and isinstance(r, ast.Call)
-                        and callee_name(r) == up_name
-                        and isinstance(r.func, ast.Attribute)
-                        and isinstance(call_recv(r), ast.Name)
-                        and call_recv(r).id in read_vars
-                    ):
-                        # the body must reload + store + return
-                        gate_ok = any(isinstance(x, ast.Return) for x in st.body)
-        if not gate_ok:
-            res.add("C23-STORE", fn.qual, "auto_reload-gate", f"{fn.qual}: a cache hit must be reloaded iff `self.auto_reload and not cached.{up_name}()`", fn.file, fn.line)
-        # uses of is_up_to_date outside that gate
-        n_up = sum(1 for c in calls(node) if callee_name(c).startswith("is_up_to_date"))
-        if n_up != 1:
-            res.add("C23-STORE", fn.qual, "uptodate-count", f"{fn.qual}: expected exactly one freshness test, found {n_up}", fn.file, fn.line)
-        # request globals applied to a hit, unconditionally (a hit must not keep the
-        # globals of an earlier request): the statement before `return <read var>`
-        # at function level is `<read var>.globals = globals [or {}]`
-        glob_ok = False
-        top = node.body
-        for i, x in enumerate(top):
-            if isinstance(x, ast.Return) and isinstance(x.value, ast.Name) and x.value.id in read_vars and i > 0:
-                p = top[i - 1]
-                if (
-                    isinstance(p, ast.Assign)
-                    and isinstance(p.targets[0], ast.Attribute)
-                    and p.targets[0].attr == "globals"
-                    and is_name(p.targets[0].value, x.value.id)
-                ):
-                    v = p.value
-                    if isinstance(v, ast.BoolOp) and isinstance(v.op, ast.Or) and len(v.values) == 2:
-                        if isinstance(v.values[1], ast.Dict) and not v.values[1].keys:
+        if n_store < 1:
+            res.add("C23-STORE", fn.qual, "store-missing", f"{fn.qual}: the loaded template is never stored", fn.file, fn.line)
+
+        # must-facts at every return: a loaded template was stored, a cached one carries this
+        # request's globals
+        def gen23(st):
+            out = set()
+            if isinstance(st, ast.Assign):
+                for t in st.targets:
+                    if isinstance(t, ast.Subscript) and is_self_attr(t.value, "cache") and isinstance(st.value, ast.Name):
+                        out.add(("stored", st.value.id))
+                    if isinstance(t, ast.Attribute) and t.attr == "globals" and isinstance(t.value, ast.Name):
+                        v = st.value
+                        if isinstance(v, ast.BoolOp) and isinstance(v.op, ast.Or) and len(v.values) == 2 and isinstance(v.values[1], ast.Dict) and not v.values[1].keys:
                             v = v.values[0]
-                    glob_ok = is_name(v, "globals")
-        if not glob_ok:
-            res.add("C23-STORE", fn.qual, "globals-on-hit", f"{fn.qual}: a cache hit must carry exactly the globals of this request (`cached.globals = globals or {{}}` right before returning it)", fn.file, fn.line)
+                        if is_name(v, "globals"):
+                            out.add(("globals", t.value.id))
+            return out
+
+        def kill23(st, facts):
+            dead = set()
+            if isinstance(st, (ast.Assign, ast.AnnAssign)):
+                tgs = st.targets if isinstance(st, ast.Assign) else [st.target]
+                for t in tgs:
+                    if isinstance(t, ast.Name):
+                        dead |= {f_ for f_ in facts if f_[1] == t.id}
+            return dead
+
+        at_return: dict[int, frozenset] = {}
+
+        def visit23(n_, st_):
+            if isinstance(n_, ast.Return):
+                at_return[id(n_)] = st_
+
+        _MF23(gen=gen23, kill=kill23, visit=visit23).run(node)
+        up_name = "is_up_to_date" if cm == "_check_cache" else "is_up_to_date_async"
+        cond_of = {id(st): cs for st, cs in _conds23(node)}
+        n_hit_returns = 0
+        for st in walk_no_nested(node):
+            if not isinstance(st, ast.Return):
+                continue
+            v = st.value
+            if not (isinstance(v, ast.Name) and v.id in (loaded_vars | read_vars)):
+                res.add("C23-STORE", fn.qual, "return", f"{fn.qual}: returns `{text(v) if v else None}` — neither the freshly loaded nor the cached template", fn.file, st.lineno)
+                continue
+            facts = at_return.get(id(st), frozenset())
+            if v.id in loaded_vars and v.id not in read_vars:
+                if ("stored", v.id) not in facts:
+                    res.add("C23-STORE", fn.qual, "return-unstored", f"{fn.qual}: returns a freshly loaded template without storing it", fn.file, st.lineno)
+                continue
+            # a cached template: returned only where it is not stale ...
+            n_hit_returns += 1
+            cs = cond_of.get(id(st), [])
+
+            def strip_await(e):
+                e2 = ast.parse(text(e), mode="eval").body
+                class _U(ast.NodeTransformer):
+                    def visit_Await(self, n2):
+                        return self.visit(n2.value)
+                return _U().visit(e2)
+
+            cc = {_canon23(strip_await(c)) for c in cs}
+            fresh_gate = _canon23(ast.parse(f"not (self.auto_reload and not {v.id}.{up_name}())", mode="eval").body)
+            alt = {_canon23(ast.parse(f"not self.auto_reload or {v.id}.{up_name}()", mode="eval").body)}
+            if fresh_gate not in cc and not (cc & alt):
+                res.add("C23-STORE", fn.qual, "auto_reload-gate", f"{fn.qual}: a cache hit must be reloaded iff `self.auto_reload and not cached.{up_name}()`", fn.file, st.lineno)
+            # ... and with exactly this request's globals
+            if ("globals", v.id) not in facts:
+                res.add("C23-STORE", fn.qual, "globals-on-hit", f"{fn.qual}: a cache hit must carry exactly the globals of this request (`cached.globals = globals or {{}}` on every path before returning it)", fn.file, st.lineno)
+        if n_hit_returns == 0:
+            res.add("C23-STORE", fn.qual, "no-hit-return", f"{fn.qual}: never returns the cached template", fn.file, fn.line)
+        # the freshness test is consulted only after `self.auto_reload and ...` (short circuit)
+        ups = [c for c in calls(node) if callee_name(c).startswith("is_up_to_date")]
+        if len(ups) != 1:
+            res.add("C23-STORE", fn.qual, "uptodate-count", f"{fn.qual}: expected exactly one freshness test, found {len(ups)}", fn.file, fn.line)
+        else:
+            guarded_up = False
+            for b_ in ast.walk(node):
+                if isinstance(b_, ast.BoolOp) and isinstance(b_.op, ast.And):
+                    idx_ar = next((i for i, x in enumerate(b_.values) if is_self_attr(x, "auto_reload")), None)
+                    idx_up = next((i for i, x in enumerate(b_.values) if any(y is ups[0] for y in ast.walk(x))), None)
+                    if idx_ar is not None and idx_up is not None and idx_ar < idx_up:
+                        guarded_up = True
+            if not guarded_up:
+                res.add("C23-STORE", fn.qual, "auto_reload-gate", f"{fn.qual}: the freshness test must be consulted only under `self.auto_reload and ...`", fn.file, ups[0].lineno)
         res.sample({"rule": "C23-STORE", "function": fn.qual, "loaded_vars": sorted(loaded_vars), "read_vars": sorted(read_vars), "stores": n_store})
 
     check_namespace_key(repo, res)
@@ -387,11 +512,30 @@ def run(repo: Repo) -> Result:
     # --- C23-FRESH -------------------------------------------------------------
     if not fresh_funcs:
         raise AnchorMissing("no freshness callable (partial(self._uptodate*, ...)) found in the file-system loaders")
-    for q, f in sorted(fresh_funcs.items()):
+    extra_fresh: list = []
+    work = sorted(fresh_funcs.items())
+    while work:
+        q, f = work.pop(0)
+        if extra_fresh:
+            work += [(g.qual, g) for g in extra_fresh]
+            extra_fresh.clear()
         res.ob(f"fresh:{q}", 2)
         params = [p for p in f.params() if p not in ("self", "cls")]
         cmps = [n for n in ast.walk(f.node) if isinstance(n, ast.Compare) and any(isinstance(x, ast.Attribute) and x.attr.startswith("st_mtime") for x in ast.walk(n))]
         if not cmps:
+            # it may hand the question to a sibling (`run_in_executor(None, Class._uptodate, path,
+            # mtime)` / `self._uptodate(path, mtime)`): then that sibling answers, with the same
+            # recorded mtime passed through
+            deleg = None
+            for n in ast.walk(f.node):
+                if isinstance(n, ast.Attribute) and f.cls is not None and n.attr in f.cls.methods and n.attr != f.name and isinstance(n.value, ast.Name) and n.value.id in ("self", "cls", f.cls.name):
+                    deleg = f.cls.methods[n.attr]
+            passes = deleg is not None and all(any(isinstance(x, ast.Name) and x.id == p_ for x in ast.walk(f.node) if isinstance(getattr(x, "ctx", None), ast.Load)) for p_ in params)
+            if passes and any(isinstance(n, ast.Compare) and any(isinstance(x, ast.Attribute) and x.attr.startswith("st_mtime") for x in ast.walk(n)) for n in ast.walk(deleg.node)):
+                if deleg.qual not in fresh_funcs:
+                    fresh_funcs[deleg.qual] = deleg  # judged below / on the next run of the loop
+                    extra_fresh.append(deleg)
+                continue
             res.add("C23-FRESH", q, "no-mtime-test", f"{q} does not compare the file's current modification time with the recorded one", f.file, f.line)
             continue
         for cmp_ in cmps:
